@@ -159,6 +159,32 @@ func (w *World) verifyOnce(fn *ssa.Function, ct *Contract, opts VerifyOpts, cuts
 		for _, r := range ct.Requires {
 			st.assume(env.Bool(r.Expr))
 		}
+		// a precondition that fixes the length of a parameter to a constant makes that length a syntactic
+		// constant (offsets computed from it stay concrete, loops over it unroll)
+		if m := constFacts(st.PC); len(m) > 0 {
+			for i, a := range args {
+				switch x := a.(type) {
+				case *SliceVal:
+					if nl := e.C.Subst(x.Len, m); nl.IsConst() && nl != x.Len {
+						nx := *x
+						nx.Len = nl
+						if nc := e.C.Subst(x.Cap, m); nc.IsConst() {
+							nx.Cap = nc
+						}
+						args[i] = &nx
+						vars[pnames[i]] = sv{V: args[i], T: fn.Params[i].Type()}
+					}
+				case *StringVal:
+					if nl := e.C.Subst(x.Len, m); nl.IsConst() && nl != x.Len {
+						nx := *x
+						nx.Len = nl
+						args[i] = &nx
+						vars[pnames[i]] = sv{V: args[i], T: fn.Params[i].Type()}
+					}
+				}
+			}
+			bindPositional(vars, fn, args)
+		}
 	}
 	e.cover(st, "requires")
 	e.Replay = &ReplayInfo{Fn: fn, Params: pnames, Args: args, St0: st.clone()}
